@@ -1,19 +1,28 @@
 """C09 — Message queues are exactly-once and FIFO.
 
-Proof: Coq theorems over all put/get histories of one queue (Kernel/MQueue.v, MQueueProofs.v, Props/Properties_C09.v).
-Tie (K): harness/k2_comm.cpp runs generated S4U programs (put/put_async/put_init+detach/get/get_async on up to 3 queues,
-  up to 6 actors) on the rebuilt library; the observed request sequence of every queue is replayed through the
-  extracted step function (run_c09) and the observed (get, payload) pairs must be the model's.
-Oracle (O): run_c09_oracle (verified: accepts exactly "k-th get obtains k-th put") on the implementation log."""
+Proof: Coq theorems over all put/get histories of one queue, and over all histories that also withdraw queued requests
+  (Mess::cancel(), issuer ended or killed): Kernel/MQueue.v, MQueueProofs.v, MQueueWithdraw.v, Props/Properties_C09.v.
+Tie (K): harness/k2_comm.cpp runs generated S4U programs (put/put_async/put_init+detach/get/get_async, cancel of a pending
+  handle, actors that return or are killed with pending requests; up to 3 queues, up to 6 actors) on the rebuilt library;
+  the observed request sequence of every queue is replayed through the extracted step function (run_c09x): the observed
+  (get, payload) pairs, the withdrawals seen by cancel() and the queue content at the end must be the model's.
+Oracle (O): run_c09x_oracle (verified: accepts exactly "k-th surviving get obtains k-th surviving put") on the
+  implementation log; a variable filled by a completed get must never be written again (C09_delivered_once)."""
 import json
 import fw
 import C08
 from C08 import (K_SLEEP, K_WAIT_ALL, K_WAIT_OLDEST, K_MQ_PUT, K_MQ_PUT_ASYNC, K_MQ_PUT_DET, K_MQ_GET, K_MQ_GET_ASYNC)
 
+K_MQ_CANCEL, K_EXIT, K_KILL, K_MQ_GET_SLOT = 16, 17, 18, 19
+PUTS = (K_MQ_PUT, K_MQ_PUT_ASYNC, K_MQ_PUT_DET)
+GETS = (K_MQ_GET, K_MQ_GET_ASYNC, K_MQ_GET_SLOT)
+
 
 def gen_program(rng):
+    """free mix; some programs also cancel handles, leave early or kill each other"""
     nact = rng.randint(2, 6)
     nmq = rng.randint(1, 3)
+    wd = rng.choice([0.0, 0.0, 0.06, 0.15])      # share of withdrawal ops
     actors = []
     for a in range(nact):
         ops = []
@@ -25,11 +34,80 @@ def gen_program(rng):
                 ops.append((K_SLEEP, 0, rng.choice([0, 1, 3, 512, 1024]), 0, 0, 0, 0))
             elif x < 0.20:
                 ops.append((rng.choice([K_WAIT_ALL, K_WAIT_OLDEST]), 0, 0, 0, 0, 0, 0))
+            elif x < 0.20 + wd:
+                y = rng.random()
+                if y < 0.6:
+                    ops.append((K_MQ_CANCEL, 0, rng.randrange(4), 0, 0, 0, 0))
+                elif y < 0.8:
+                    ops.append((K_KILL, 0, rng.randrange(nact), 0, 0, 0, 0))
+                else:
+                    ops.append((K_EXIT, 0, 0, 0, 0, 0, 0))
+                    break
             elif rng.random() < bias:
                 ops.append((rng.choice([K_MQ_PUT, K_MQ_PUT_ASYNC, K_MQ_PUT_ASYNC, K_MQ_PUT_DET]), q, 0, 0, 0, 0, 0))
             else:
-                ops.append((rng.choice([K_MQ_GET, K_MQ_GET_ASYNC]), q, 0, 0, 0, 0, 0))
+                ops.append((rng.choice([K_MQ_GET, K_MQ_GET_ASYNC, K_MQ_GET_SLOT]), q, 0, 0, 0, 0, 0))
         actors.append(ops)
+    return {"nmb": 0, "nmq": nmq, "hosts": [(10 ** 9, 10 ** 8, 100)] * rng.randint(1, 2), "actors": actors}
+
+
+def gen_withdraw(rng):
+    """aimed at MessageQueueImpl::remove with others queued behind: 2-4 holders post asynchronous requests of one kind on
+    one queue at staggered dates; then one or two of the older ones are withdrawn (cancel of a handle, the holder returns,
+    the holder is killed) while at least two younger ones are queued; then the other side arrives and is served."""
+    nhold = rng.randint(2, 4)
+    puts_pending = rng.random() < 0.6
+    post = (lambda: rng.choice([K_MQ_PUT_ASYNC, K_MQ_PUT_ASYNC, K_MQ_PUT_DET])) if puts_pending else (lambda: K_MQ_GET_ASYNC)
+    nmq = rng.randint(1, 2)
+    q = rng.randrange(nmq)
+    T1, T2, T3 = 1024, 2048, 4096
+    actors, nposted = [], []
+    for hld in range(nhold):
+        ops = [(K_SLEEP, 0, rng.choice([0, 1, 2, 3, 10 * hld]), 0, 0, 0, 0)]
+        k = rng.randint(1, 3) + (2 if hld == nhold - 1 else 0)     # the last holder makes sure enough are queued behind
+        for _ in range(k):
+            ops.append((post(), q, 0, 0, 0, 0, 0))
+            if rng.random() < 0.2:
+                ops.append((K_SLEEP, 0, rng.choice([1, 2, 5]), 0, 0, 0, 0))
+        nposted.append(k)
+        ops.append((K_SLEEP, 0, T1, 0, 0, 0, 0))
+        actors.append(ops)
+    killer = None
+    victims = rng.sample(range(nhold - 1), rng.randint(1, min(2, nhold - 1)))   # never the youngest holder
+    for v in victims:
+        how = rng.choice(["cancel", "cancel", "exit", "kill"])
+        if how == "cancel":
+            actors[v].append((K_MQ_CANCEL, 0, rng.randrange(3), 0, 0, 0, 0))
+            if rng.random() < 0.3:
+                actors[v].append((K_MQ_CANCEL, 0, rng.randrange(3), 0, 0, 0, 0))
+        elif how == "exit":
+            actors[v].append((K_EXIT, 0, 0, 0, 0, 0, 0))
+        else:
+            if killer is None:
+                killer = [(K_SLEEP, 0, T1 + 100, 0, 0, 0, 0)]
+            killer.append((K_KILL, 0, v, 0, 0, 0, 0))
+    for hld in range(nhold):
+        if actors[hld][-1][0] != K_EXIT:
+            actors[hld].append((K_SLEEP, 0, T3, 0, 0, 0, 0))
+            if rng.random() < 0.5:
+                actors[hld].append((K_WAIT_OLDEST, 0, 0, 0, 0, 0, 0))
+                actors[hld].append((K_SLEEP, 0, 512, 0, 0, 0, 0))
+    if killer is not None:
+        actors.append(killer)
+    total = sum(nposted)
+    ncons = rng.randint(1, 2)
+    for c in range(ncons):
+        ops = [(K_SLEEP, 0, T2 + c, 0, 0, 0, 0)]
+        for _ in range(rng.randint(max(1, total // ncons - 2), total // ncons + 1)):
+            if puts_pending:
+                ops.append((rng.choice([K_MQ_GET, K_MQ_GET, K_MQ_GET_ASYNC, K_MQ_GET_SLOT]), q, 0, 0, 0, 0, 0))
+            else:
+                ops.append((rng.choice([K_MQ_PUT, K_MQ_PUT, K_MQ_PUT_ASYNC, K_MQ_PUT_DET]), q, 0, 0, 0, 0, 0))
+            if rng.random() < 0.15:
+                ops.append((K_SLEEP, 0, rng.choice([1, 600]), 0, 0, 0, 0))
+        ops.append((K_SLEEP, 0, T3 + 2048, 0, 0, 0, 0))
+        actors.append(ops)
+    actors = actors[:6]
     return {"nmb": 0, "nmq": nmq, "hosts": [(10 ** 9, 10 ** 8, 100)] * rng.randint(1, 2), "actors": actors}
 
 
@@ -50,37 +128,141 @@ CORPUS = [
     # the queue flips from puts to gets and back; two queues
     Q(2, [o(K_MQ_PUT_ASYNC), o(K_MQ_GET, 1), o(K_MQ_PUT_ASYNC), o(K_MQ_PUT_ASYNC)],
       [o(K_MQ_GET), o(K_MQ_GET), o(K_MQ_GET), o(K_MQ_PUT, 1), o(K_MQ_GET_ASYNC), o(K_MQ_GET_ASYNC)]),
+    # the 2nd of 4 pending puts is cancelled (two queued behind it); the getter must obtain 1, 3, 4
+    Q(1, [o(K_MQ_PUT_ASYNC)] * 4 + [o(K_SLEEP, 0, 1024), o(K_MQ_CANCEL, 0, 1), o(K_SLEEP, 0, 10240)],
+      [o(K_SLEEP, 0, 2048), o(K_MQ_GET), o(K_MQ_GET), o(K_MQ_GET)]),
+    # a sender returns with a pending put_async while three younger puts of two other senders are queued
+    Q(1, [o(K_MQ_PUT_ASYNC), o(K_SLEEP, 0, 1024), o(K_EXIT)], [o(K_SLEEP, 0, 100), o(K_MQ_PUT_ASYNC), o(K_MQ_PUT_ASYNC)],
+      [o(K_SLEEP, 0, 200), o(K_MQ_PUT)], [o(K_SLEEP, 0, 2048), o(K_MQ_GET), o(K_MQ_GET_SLOT), o(K_MQ_GET)]),
+    # a receiver returns with a pending get_async; three younger gets are queued behind it
+    Q(1, [o(K_MQ_GET_ASYNC), o(K_SLEEP, 0, 1024), o(K_EXIT)], [o(K_SLEEP, 0, 100), o(K_MQ_GET_ASYNC), o(K_MQ_GET_ASYNC)],
+      [o(K_SLEEP, 0, 200), o(K_MQ_GET)], [o(K_SLEEP, 0, 2048), o(K_MQ_PUT), o(K_MQ_PUT_DET), o(K_MQ_PUT_ASYNC)]),
+    # an actor holding two pending put_async and blocked in a put is killed; the puts of the others stay in order
+    Q(1, [o(K_MQ_PUT_ASYNC), o(K_SLEEP, 0, 300), o(K_MQ_PUT_ASYNC), o(K_MQ_PUT)], [o(K_SLEEP, 0, 100), o(K_MQ_PUT_ASYNC), o(K_MQ_PUT_ASYNC), o(K_MQ_PUT_DET)],
+      [o(K_SLEEP, 0, 1024), o(K_KILL, 0, 0), o(K_MQ_GET), o(K_MQ_GET), o(K_MQ_GET)]),
+    # cancel() of a message that is already paired changes nothing; kill of an actor that has not started yet
+    Q(1, [o(K_KILL, 0, 2), o(K_MQ_PUT_ASYNC), o(K_MQ_GET_ASYNC), o(K_MQ_CANCEL, 0, 0), o(K_MQ_CANCEL, 0, 0), o(K_MQ_GET)],
+      [o(K_SLEEP, 0, 100), o(K_MQ_PUT_ASYNC), o(K_MQ_PUT_ASYNC)], [o(K_MQ_PUT_ASYNC), o(K_MQ_PUT_ASYNC)]),
+    # the sender waits its oldest put_async long after the receiver reused its variable for the next get
+    Q(1, [o(K_MQ_PUT_ASYNC), o(K_MQ_PUT_ASYNC), o(K_SLEEP, 0, 1024), o(K_WAIT_OLDEST), o(K_SLEEP, 0, 4096)],
+      [o(K_SLEEP, 0, 100), o(K_MQ_GET_SLOT), o(K_MQ_GET_SLOT), o(K_SLEEP, 0, 2048), o(K_SLEEP, 0, 10)]),
 ]
 
 
-def history(ev, q):
-    h = []
-    for (seq, actor, kind, obj, size, tag, fk, fv) in sorted(ev["I"]):
-        if obj != q or kind < 10:
+def handling_order(line):
+    """the message-queue ops in the order they took effect in the kernel: H seq = maestro handles the request (cancel and
+    kill included); an EXIT (kind 17) takes effect where it is logged, the cleanup of a returning actor runs in its own
+    context, before the requests other actors issued earlier in the same scheduling round are handled"""
+    req, order = {}, []
+    for tok in line.split(" | "):
+        f = tok.split()
+        if not f:
             continue
-        if kind in (K_MQ_PUT, K_MQ_PUT_ASYNC, K_MQ_PUT_DET):
+        if f[0] == "I":
+            r = tuple(int(x) for x in f[1:])
+            req[r[0]] = r
+            if r[2] == K_EXIT:
+                order.append(r)
+        elif f[0] == "H":
+            order.append(req[int(f[1])])
+    return order
+
+
+def history(order, q):
+    """records of run_c09x for queue q in the order the kernel handled them: [1|2, id, actor, payload] or [3, n, ids...].
+    A request issued by an actor that another actor has killed is never served (ActorImpl::simcall_handle returns at once
+    for a dying actor) and is left out.  When an actor returns or is killed, cancel() runs on all its non-detached messages."""
+    h, dead, mine = [], set(), {}
+    for (seq, actor, kind, obj, size, tag, fk, fv) in order:
+        if kind < 10 or actor in dead:
+            continue
+        if kind in (K_EXIT, K_KILL):
+            who = actor if kind == K_EXIT else size
+            if who in dead:
+                continue
+            dead.add(who)
+            ids = sorted(mine.get(who, []))
+            if ids:
+                h.append([3, len(ids)] + ids)
+            continue
+        if obj != q:
+            continue
+        if kind == K_MQ_CANCEL:
+            h.append([3, 1, size])
+        elif kind in PUTS:
             h.append([1, seq, actor, seq])
-        else:
+            if kind != K_MQ_PUT_DET:
+                mine.setdefault(actor, []).append(seq)
+        elif kind in GETS:
             h.append([2, seq, actor, 0])
+            mine.setdefault(actor, []).append(seq)
     return h
+
+
+def behind_stats(h):
+    """for the coverage record only: for every request withdrawn while queued, how many were queued behind it"""
+    queue, kind, out = [], {}, []
+    for r in h:
+        if r[0] == 3:
+            for i in r[2:]:
+                if i in queue:
+                    out.append(len(queue) - queue.index(i) - 1)
+                    queue.remove(i)
+        else:
+            if queue and kind[queue[0]] != r[0]:
+                queue.pop(0)
+            else:
+                queue.append(r[1])
+                kind[r[1]] = r[0]
+    return out
+
+
+def parse_extra(line):
+    """S seq payload (a completed get's variable written again), Q mq id... (queue content at the end), C seq w (cancel() of
+    message seq withdrew it from its queue or not), U seq payload (content of the destination variable of get seq at the end)"""
+    again, left, seen, var = [], {}, {}, {}
+    for tok in line.split(" | "):
+        f = tok.split()
+        if f and f[0] == "S":
+            again.append((int(f[1]), int(f[2])))
+        elif f and f[0] == "C":
+            seen[int(f[1])] = int(f[2])
+        elif f and f[0] == "U":
+            var[int(f[1])] = int(f[2])
+        elif f and f[0] == "Q":
+            left[int(f[1])] = [int(x) for x in f[2:]]
+    return again, left, seen, var
+
+
+def split_model(mo):
+    """run_c09x answer: pairs, -1, withdrawn, -1, queue"""
+    a = mo.index(-1)
+    b = mo.index(-1, a + 1)
+    return mo[:a], mo[a + 1:b], mo[b + 1:]
 
 
 def run(ctx):
     ctx.simgrid(["simgrid"])
     ctx.prove()
     drv = fw.build_harness("k2_comm", extra=C08.HARNESS_FLAGS)
-    n = ctx.n(300, 10000)
-    progs = list(CORPUS) + [gen_program(ctx.rng) for _ in range(n)]
+    n = ctx.n(200, 6000)
+    nw = ctx.n(150, 3000)
+    progs = list(CORPUS) + [gen_program(ctx.rng) for _ in range(n)] + [gen_withdraw(ctx.rng) for _ in range(nw)]
     if ctx.replay:
         progs = [C08.decode_program(json.load(open(ctx.replay))["case"]["program"])]
     lines = [" ".join(map(str, C08.encode_program(p))) for p in progs]
     rc, out, err = fw.run_lines(drv, [], lines, timeout=3000)
     if rc != 0 or len(out) != len(lines):
         raise fw.BuildError("k2_comm driver failed rc=%d, %d/%d answers: %s" % (rc, len(out), len(lines), err[-500:]))
-    ctx.cov["rule"] = ("generated S4U programs: 2-6 actors, 1-3 message queues, 1-9 requests per actor among put/put_async/put_init+detach/"
-                       "get/get_async/wait/sleep, producers and consumers biased per actor; non-trivial = at least two gets served; "
+    ctx.cov["rule"] = ("generated S4U programs, two families: (free) 2-6 actors, 1-3 message queues, 1-9 ops per actor among put/put_async/"
+                       "put_init+detach/get/get_async/get into a reused variable/wait/sleep and, in half of the programs, cancel of a pending "
+                       "handle / return with pending handles / kill of another actor; (withdraw) 2-4 holders post asynchronous puts (or "
+                       "gets) at staggered dates, one or two older holders then cancel a handle, return or are killed while younger "
+                       "requests are queued behind, then the other side arrives; non-trivial = at least two gets served; "
                        "distinct = distinct program")
-    dist = {"programs": 0, "queue_histories": 0, "pairs": 0, "deadlocks": 0, "queues_left_with_puts": 0, "queues_left_with_gets": 0}
+    dist = {"programs": 0, "queue_histories": 0, "pairs": 0, "deadlocks": 0, "queues_left_with_puts": 0, "queues_left_with_gets": 0,
+            "withdrawn_while_queued": 0, "withdrawn_with_2_or_more_behind": 0, "cancel_of_paired_message": 0,
+            "histories_with_withdrawal_and_2_pairs_after": 0}
     todo, model_in, oracle_in = [], [], []
     for prog, line in zip(progs, out):
         dist["programs"] += 1
@@ -89,10 +271,17 @@ def run(ctx):
         if ev["crash"]:
             ctx.fail("simulation-crash", "the simulation of the program died: %s" % ev["crash"], case)
             continue
+        again, left, cseen, var = parse_extra(line)
+        for (g, p2) in again:
+            d = ev["D"].get(g)
+            ctx.fail("delivered-again", "get %d had returned payload %s; later its variable was written again, with payload %d (a wait() or "
+                     "test() on a message that is already done hands its payload over once more)" % (g, d[0] if d else "?", p2),
+                     dict(case, log=line[:1500]))
         dist["deadlocks"] += ev["deadlock"]
         served = 0
+        order = handling_order(line)
         for q in range(prog["nmq"]):
-            h = history(ev, q)
+            h = history(order, q)
             if not h:
                 continue
             obs, bad = [], []
@@ -111,38 +300,62 @@ def run(ctx):
                     obs += [r[1], d[0]]
                 elif m:
                     obs += [r[1], m]
+                elif var.get(r[1]):
+                    # the receiver was killed before it could report (not even the handle came back): the kernel filled its variable
+                    obs += [r[1], var[r[1]]]
+            # what every cancel() on a message of this queue did: withdrew it (1) or found it already paired (0)
+            seen = {size: cseen[size] for (seq, actor, kind, obj, size, tag, fk, fv) in ev["I"]
+                    if kind == K_MQ_CANCEL and obj == q and size in cseen}
             nput = sum(1 for r in h if r[0] == 1)
-            nget = len(h) - nput
+            nget = sum(1 for r in h if r[0] == 2)
+            behind = behind_stats(h)
             dist["queue_histories"] += 1
             dist["pairs"] += len(obs) // 2
-            dist["queues_left_with_puts"] += nput > nget
-            dist["queues_left_with_gets"] += nget > nput
+            dist["withdrawn_while_queued"] += len(behind)
+            dist["withdrawn_with_2_or_more_behind"] += sum(1 for b in behind if b >= 2)
+            dist["cancel_of_paired_message"] += sum(1 for v in seen.values() if not v)
             served += len(obs) // 2
             flat = [len(h)] + [x for r in h for x in r]
             model_in.append(flat)
             oracle_in.append(flat + obs)
-            todo.append((case, q, h, obs, bad))
+            todo.append((case, q, h, obs, bad, seen, left.get(q), nput, nget, len(behind)))
         ctx.case(case["program"], served >= 2, {"program": case["program"], "log": line[:500]} if served >= 3 and len(line) < 500 else None)
-    model = fw.run_model("c09", "run_c09", model_in) if model_in else []
-    verdicts = fw.run_model("c09", "run_c09_oracle", oracle_in) if oracle_in else []
-    for (case, q, h, obs, bad, ), mo, vd in zip(todo, model, verdicts):
+    model = fw.run_model("c09", "run_c09x", model_in) if model_in else []
+    verdicts = fw.run_model("c09", "run_c09x_oracle", oracle_in) if oracle_in else []
+    for (case, q, h, obs, bad, seen, left, nput, nget, nwd), mo, vd in zip(todo, model, verdicts):
+        mpairs_l, mw, mq = split_model(mo)
         where = dict(case)
         where.update({"queue": q, "history": h, "observed": obs, "model": mo})
         for b in bad:
             ctx.fail("payload-not-intact", "queue %d: %s" % (q, b), where)
-        mpairs = sorted(zip(mo[0::2], mo[1::2]))
+        mpairs = sorted(zip(mpairs_l[0::2], mpairs_l[1::2]))
         ipairs = sorted(zip(obs[0::2], obs[1::2]))
+        kinds = {r[1]: r[0] for r in h if r[0] != 3}
+        dist["queues_left_with_puts"] += any(kinds.get(i) == 1 for i in mq)
+        dist["queues_left_with_gets"] += any(kinds.get(i) == 2 for i in mq)
+        dist["histories_with_withdrawal_and_2_pairs_after"] += nwd > 0 and len(mpairs) >= 2
         if vd != [1]:
             pl = [p for _, p in ipairs]
             sig = "not-exactly-once" if len(set(pl)) != len(pl) or any(p not in [r[3] for r in h if r[0] == 1] for p in pl) else "not-fifo"
-            ctx.fail(sig, "queue %d: requests (kind,id,actor,payload) %s: gets obtained (get,payload) %s, but the k-th get must obtain the "
-                     "k-th put: %s" % (q, h, ipairs, mpairs), where)
-        elif mpairs != ipairs:
+            ctx.fail(sig, "queue %d: records (1 put|2 get, id, actor, payload) or (3, n, ids withdrawn by cancel/return/kill) %s: gets "
+                     "obtained (get,payload) %s, but the k-th get that was not withdrawn must obtain the k-th put that was not withdrawn: "
+                     "%s (withdrawn while queued: %s)" % (q, h, ipairs, mpairs, mw), where)
+            continue
+        if mpairs != ipairs:
             ctx.mismatch("message-queue model vs implementation", "queue %d: model %s, implementation %s" % (q, mpairs, ipairs), where)
+        for target, waiting in sorted(seen.items()):
+            if bool(waiting) != (target in mw):
+                ctx.mismatch("message-queue model vs implementation (withdrawal)", "queue %d: cancel() of message %d %s, in the model it was "
+                             "%s" % (q, target, "withdrew it" if waiting else "found it already paired", "queued" if target in mw else "not queued"), where)
+        if left is not None and left != mq:
+            ctx.mismatch("message-queue model vs implementation (queue content)", "queue %d: at the end the queue holds %s (front first), "
+                         "the model %s" % (q, left, mq), where)
     ctx.cov["input_distribution"] = dist
     ctx.assumptions += [
-        "sequential contexts: the issue counter incremented just before a request is the order in which the kernel handles requests",
-        "no timeouts, cancellations, actor kills (they remove requests from the queue; not modelled)",
+        "the order in which the kernel serves the requests is the order in which maestro handles their simcalls, observed through the "
+        "SIMGRID_VERIF hook of ActorImpl::simcall_handle; an actor that returns withdraws its messages at once, in its own context",
+        "a request issued by an actor that another actor has killed is never served (simcall_handle of a dying actor)",
+        "no timeouts, no clear() of a queue, no host failure",
         "under simgrid-mc message queues hang (MessIput/MessIget serialize pointers, C43): not exercised here"]
 
 
@@ -150,12 +363,23 @@ META = {
     "level": "proof",
     "text": "Coq theorems over every put/get history of a queue: C09_fifo (the pairs formed, in order, are combine(puts, gets): k-th get with "
             "k-th put), C09_kth_get_kth_put, C09_exactly_once (puts = delivered ++ still queued, gets = served ++ still queued, as ordered "
-            "lists), C09_homogeneous (never a PUT and a GET queued together), C09_final_queue, C09_oracle_sound. Tie: generated S4U programs run "
-            "on the rebuilt library; each queue's observed request sequence is replayed through the extracted model and the observed "
-            "(get,payload) pairs must equal the model's; the verified oracle judges every implementation log.",
-    "note": "Model = MessImpl::iput/iget + MessageQueueImpl::find_matching_message; blocking/async/detached are the same kernel request. Not "
-            "modelled: cancel/timeouts, clear(), actor death. The request order is taken from the run (sequential contexts). Trusted: Coq "
-            "kernel, extraction, harness, generator.",
-    "technique": "Coq proof (induction over histories on homogeneous queues) + extracted-model replay of observed histories + verified log oracle",
+            "lists), C09_homogeneous (never a PUT and a GET queued together), C09_final_queue, C09_oracle_sound. Over every history that also "
+            "withdraws queued requests (Mess::cancel(), issuer returns or is killed with unmatched put_async/get_async; request ids distinct): "
+            "C09_cancel_exact (a cancel removes exactly the named messages that are queued, the others keep their relative order, the order "
+            "of the cancels is irrelevant), C09_withdrawn_iff (withdrawn = named by a cancel while queued), C09_withdrawn_as_never_issued "
+            "(pairs and final queue are those of the history without the withdrawn requests), hence C09_withdraw_fifo (pairs = "
+            "combine(surviving puts, surviving gets), in order), C09_withdraw_exactly_once, C09_withdraw_homogeneous, "
+            "C09_withdraw_final_queue; C09_xrun_conservative, C09_xoracle_sound, C09_xoracle_is_model. C09_delivered_once: finish() writes the "
+            "payload to the receive buffer once however often it runs (C09_delivered_once_pinned_refuted for the pinned code). Tie: "
+            "generated S4U programs run on the rebuilt library; each queue's observed request/withdrawal sequence is replayed through the "
+            "extracted model: observed (get,payload) pairs, what every cancel() did, and the queue content at the end must equal the "
+            "model's; the verified oracle judges every implementation log.",
+    "note": "Model = MessImpl::iput/iget + MessageQueueImpl::find_matching_message + MessImpl::cancel/MessageQueueImpl::remove (+ the copy in "
+            "MessImpl::finish, mirrored but only checked by observation: a variable filled by a completed get must never change again); "
+            "blocking/async/detached are the same kernel request; an actor's return/kill = cancel() on all its non-detached messages. Fixed in "
+            "simgrid: 98a91f7f3c (payload handed over again by every later wait(), sig delivered-again). Not modelled: timeouts, clear(), "
+            "host failure. The request order is taken from the run (order in which maestro handles the simcalls, hook in ActorImpl::simcall_handle). Trusted: Coq kernel, extraction, harness, generator.",
+    "technique": "Coq proof (induction over histories on homogeneous queues; simulation 'withdrawn = never issued' for histories with "
+                 "cancels) + extracted-model replay of observed histories + verified log oracle",
     "claimed": True,
 }
